@@ -364,7 +364,10 @@ func (update *Update) Prepend(eventlist *EventList) error {
 		// the prepended events cover all of ours
 		n.product = big.NewInt(1)
 	}
-	n.Events = append(eventlist.Events, n.Events...)
+	// build the combined chain in a slice of our own: appending to eventlist.Events could write
+	// into the spare capacity of the caller's slice, also when we go on to fail
+	combined := make([]*Event, 0, count+len(n.Events))
+	n.Events = append(append(combined, eventlist.Events...), n.Events...)
 	if eventlist.product != nil {
 		n.product.Mul(n.product, eventlist.product)
 		n.productFrom = n.Events[0].Index
